@@ -8,6 +8,7 @@
                                  [2 len xALLDATA err 0] summarising everything the reader received
      op  : [1 xDATA] Write | [2 n] Read (buffer of n bytes) | [3 e] CloseWithError | [4 e] BreakWithError
            | [5] Err | [6] Release | [7] Done-closed? | [8 e] CloseWithErrorAndCode | [9] Peek (r,w)
+           | [10] (only with mode bit3) take a new pipe from the buffer pool
            e in 0..9 : 0 = nil (panics), 1 = io.EOF, 2..9 distinct other errors
    output: [obs ...] one per op
      obs : [1 n e] Write result | [2 n xDATA e calls] Read result | [-4] Read would block | [] no result
@@ -87,7 +88,62 @@ Definition conc_mode (i : val) : bool :=
 Definition transfer_result (ops : list op) : obs :=
   let data := concat (write_chunks ops) in BRead (length data) data E_EOF 0.
 
+(* ---------- pooled generations (mode bit3): the op list contains separators [10] = "abandon this pipe and take a
+   new one from the buffer pool" (pipe.NewPipeFromBufferPool); every pipe, including the first, comes from the
+   pool; the separator's observation is [] ---------- *)
+Definition pool_mode (i : val) : bool :=
+  match i with
+  | VL [VZ cap; VZ mode; _] => Z.testbit mode 3
+  | _ => false
+  end.
+Definition is_sep (v : val) : bool := match v with VL [VZ 10] => true | _ => false end.
+Fixpoint split_gens (ops : list val) : list (list val) :=
+  match ops with
+  | [] => [[]]
+  | v :: r =>
+      if is_sep v then [] :: split_gens r
+      else match split_gens r with g :: gs => (v :: g) :: gs | [] => [[v]] end
+  end.
+Definition decode_gens (i : val) : option (nat * list (list op)) :=
+  match i with
+  | VL [VZ cap; VZ _; VL ops] =>
+      match dec_nat cap 4096, all_some (map (fun g => all_some (map decode_op g)) (split_gens ops)) with
+      | Some c, Some gs => Some (c, gs)
+      | _, _ => None
+      end
+  | _ => None
+  end.
+Fixpoint join_gens (outs : list (list obs)) : list val :=
+  match outs with
+  | [] => []
+  | [o] => map encode_obs o
+  | o :: r => map encode_obs o ++ VL [] :: join_gens r
+  end.
+(* every generation, on its own, must be a history of a FRESH FIFO specification of the same capacity: a recycled
+   buffer must behave exactly like a new one *)
+Fixpoint check_gens (cap : nat) (gens : list (list op)) (l : list val) : bool :=
+  match gens with
+  | [] => match l with [] => true | _ => false end
+  | g :: rest =>
+      match all_some (map decode_obs (firstn (length g) l)) with
+      | Some outs =>
+          spec_ok cap g outs &&
+          match rest, skipn (length g) l with
+          | [], [] => true
+          | _ :: _, VL [] :: l' => check_gens cap rest l'
+          | _, _ => false
+          end
+      | None => false
+      end
+  end.
+
 Definition run_C21 (i : val) : val :=
+  if pool_mode i then
+    match decode_gens i with
+    | Some (cap, gens) => VL (join_gens (run_gens cap [] gens))
+    | None => VErr 0
+    end
+  else
   match decode_input i with
   | Some (cap, ops) =>
       if conc_mode i then VL [encode_obs (transfer_result ops)]
@@ -103,6 +159,13 @@ Definition agree_C21 (i o : val) : bool := val_eqb (run_C21 i) o.
    reported only when nothing is pending, a break error immediately, Blocked only when nothing is
    pending and no error is set. *)
 Definition prop_C21 (i o : val) : bool :=
+  if pool_mode i then
+    match decode_gens i, o with
+    | Some (cap, gens), VL l => check_gens cap gens l
+    | Some _, _ => false
+    | None, _ => val_eqb o (VErr 0)
+    end
+  else
   match decode_input i, decode_outs o with
   | Some (cap, ops), Some outs =>
       if conc_mode i
@@ -117,4 +180,6 @@ Definition prop_C21 (i o : val) : bool :=
 
 Definition kf_C21 (i : val) : Z := 0.
 
-Definition wf_C21 (i : val) : bool := match decode_input i with Some _ => true | None => false end.
+Definition wf_C21 (i : val) : bool :=
+  if pool_mode i then match decode_gens i with Some _ => true | None => false end
+  else match decode_input i with Some _ => true | None => false end.
